@@ -123,6 +123,12 @@ add('float_literal_full_precision', 'let gthird: float = 0.6666666666666666\nlet
     '(println (== (+ 0.1 0.2) 0.30000000000000004))\n(println (> 0.30000000000000004 0.3))\n(println (== 0.6666666666666666 (/ 2.0 3.0)))\n(println (< 1.0 1.0000000000000002))\n(println (== gthird (/ 2.0 3.0)))\n(println (> gnext 1.0))\n(println (== 0.1234567890123456 0.12345678901234561))\n(println (< 0.1234567890123456 0.1234567890123457))\n(println (== 123456.78901234567 123456.78901234568))\n(println (> 4503599627370497.5 4503599627370497.0))',
     'true\ntrue\ntrue\ntrue\ntrue\ntrue\nfalse\ntrue\ntrue\ntrue\n')
 
+# a loop whose last executed iteration ends with continue / break is over: the statements after it run
+add('while_continue_last', 'fn wcl(n: int) -> int {\n    let mut i: int = 0\n    let mut acc: int = 0\n    while (< i n) {\n        set i (+ i 1)\n        if (== i n) {\n            continue\n        }\n        set acc (+ acc i)\n    }\n    set acc (+ acc 100)\n    (println "after")\n    return acc\n}\nshadow wcl { assert true }', '(println (wcl 3))\n(println (wcl 1))', 'after\n103\nafter\n100\n')
+add('for_continue_last', 'fn fcl(n: int) -> int {\n    let mut acc: int = 0\n    for i in (range 0 n) {\n        if (== i (- n 1)) {\n            continue\n        }\n        set acc (+ acc 1)\n    }\n    (println "after")\n    return (+ acc 10)\n}\nshadow fcl { assert true }', '(println (fcl 3))\nlet mut k: int = 0\nwhile (< k 2) {\n    set k (+ k 1)\n    continue\n}\n(println k)', 'after\n12\n2\n')
+add('nested_loop_inner_continue_last', '', 'let mut total: int = 0\nfor a in (range 0 2) {\n    let mut b: int = 0\n    while (< b 2) {\n        set b (+ b 1)\n        if (== b 2) {\n            continue\n        }\n        set total (+ total 1)\n    }\n    set total (+ total 10)\n}\n(println total)', '22\n')
+add('while_break_first_then_stmt', '', 'let mut i: int = 0\nwhile (< i 5) {\n    set i (+ i 1)\n    break\n}\n(println i)\nlet mut j: int = 0\nfor q in (range 0 5) {\n    set j (+ j 1)\n    if (== q 0) {\n        break\n    }\n}\n(println j)', '1\n1\n')
+
 # forward references: the callee is defined after its caller (and after main)
 add('forward_call', '', '(println (later 4))\n(println (later2 "x"))', '41\nin-later2\nxx\n',
     after='fn later(x: int) -> int {\n    return (+ (* x 10) 1)\n}\nshadow later { assert true }\nfn later2(s: string) -> string {\n    (println "in-later2")\n    return (+ s s)\n}\nshadow later2 { assert true }')
